@@ -166,6 +166,26 @@ func (x *g) attrName(suffix string) string {
 	}
 }
 
+// oddTag returns a fresh json tag name that snake-casing would change (the tag is documented to be used as it is written)
+func (x *g) oddTag(style int) string {
+	for {
+		a, b := x.pick(fieldWords), x.pick(fieldWords)
+		n := a + title(b)
+		switch style {
+		case 1:
+			n = a + "-" + b
+		case 2:
+			n = title(a) + " " + b
+		}
+		k := canon(strings.NewReplacer("-", "", " ", "").Replace(n))
+		if x.used[k] {
+			continue
+		}
+		x.used[k] = true
+		return n
+	}
+}
+
 func (x *g) msgName() string {
 	for {
 		name := x.pick(msgWords)
@@ -246,7 +266,13 @@ func castTypeFor(scalar string) string {
 func (x *g) decorate(f *desc.Field) {
 	if x.r.P(25) {
 		var t string
-		switch x.r.Intn(9) {
+		switch x.r.Intn(12) {
+		case 9: // a tag name is taken verbatim: lowerCamel
+			t = x.oddTag(0)
+		case 10: // ... with a dash
+			t = x.oddTag(1) + ",omitempty"
+		case 11: // ... with a space and an upper-case letter
+			t = x.oddTag(2)
 		case 0:
 			t = ""
 		case 1:
